@@ -3,6 +3,7 @@
 package zzverif
 
 import (
+	lucene "github.com/grindlemire/go-lucene"
 	"github.com/grindlemire/go-lucene/internal/lex"
 )
 
@@ -48,6 +49,9 @@ func H_LexSegment() {
 				rtReach("eof")
 			} else {
 				rtReach("err")
+				// a lexical error (bad character, unterminated quote or regexp) makes Parse fail
+				_, perr := lucene.Parse(in)
+				rtAssert("lex-error-fails-parse", perr != nil)
 			}
 			rtReach("end")
 			return
